@@ -1,6 +1,7 @@
 package main
 
 import (
+	"go/types"
 	"sync"
 	"sync/atomic"
 	"fmt"
@@ -366,6 +367,7 @@ type sharedState struct {
 	typeIDs  map[string]uint64
 	visited  *visitedSet
 	pruned   int64
+	rtype    types.Type
 	violSeen map[string]int
 	npaths   int64
 	nviol    int64
